@@ -864,6 +864,57 @@ impl OodFrameW {
     }
 }
 
+// ---------------------------------------------------------------------------------------------------------------------
+// Queries::new (air/src/proof/queries.rs, C12): the writer Queries::parse reads back. For every non-empty list of equally long
+// rows: the value bytes are the encodings of row 0, row 1, .. in order (row-major, nothing else), the path bytes are
+// serialize_nodes of the batch proof. The three assertions are the documented pre-conditions.
+pub uninterp spec fn ser_nodes_spec(p: BatchMerkleProof) -> Seq<u8>;
+impl BatchMerkleProof {
+    #[verifier::external_body]
+    pub fn serialize_nodes(&self) -> (r: Vec<u8>) ensures r@ == ser_nodes_spec(*self) { unimplemented!() }
+}
+pub open spec fn enc_rows(rows: Seq<Vec<T>>, n: nat) -> Seq<u8>
+    decreases n
+{
+    if n == 0 { Seq::<u8>::empty() } else { enc_rows(rows, (n - 1) as nat) + enc_many(rows[n - 1]@) }
+}
+#[verifier::external_body]
+pub fn writer_with_capacity(n: usize) -> (r: VecWriter) ensures r.v@.len() == 0 { unimplemented!() }
+pub struct QueriesW { pub paths: Vec<u8>, pub values: VecWriter }
+impl QueriesW {
+    //@@ source air/src/proof/queries.rs
+    //@@ extract anchor="pub fn new<H: Hasher, E: FieldElement>("
+    //@@ rewrite-re "assert!\(([^,]+),[^;]*\);" => "if !(\1) { must_not_panic(); }"
+    //@@ rewrite-re "assert_ne!\(([^,]+),\s*([^,]+),[^;]*\);" => "if !(\1 != \2) { must_not_panic(); }"
+    //@@ rewrite-re "(?s)assert_eq!\(\s*([^,]+),\s*([^,]+),[^;]*\);" => "if !(\1 == \2) { must_not_panic(); }"
+    //@@ rewrite "E::ELEMENT_BYTES" => "E::element_bytes()"
+    //@@ rewrite "Vec::with_capacity(" => "writer_with_capacity("
+    //@@ rewrite "Queries { paths, values }" => "QueriesW { paths, values }"
+    //@@ itername 1 it
+    //@@ loop 1
+    //@@|            invariant
+    //@@|                0 <= it.index@ <= query_values@.len(),
+    //@@|                forall|j: int| 0 <= j < query_values@.len() ==> (#[trigger] query_values@[j])@.len() == elements_per_query,
+    //@@|                values.v@ == enc_rows(query_values@, it.index@ as nat),
+    //@@ loopstart 1
+    //@@|            proof { assert(*elements == query_values@[it.index@]); }
+    pub fn new(merkle_proof: BatchMerkleProof, query_values: Vec<Vec<T>>) -> (r: Self)
+        requires
+            1 <= query_values@.len() <= 255, 1 <= query_values@[0]@.len() <= 255, 1 <= elem_bytes() <= 64,
+            forall|j: int| 0 <= j < query_values@.len() ==> (#[trigger] query_values@[j])@.len() == query_values@[0]@.len(),
+        ensures
+            r.values.v@ == enc_rows(query_values@, query_values@.len()),
+            r.paths@ == ser_nodes_spec(merkle_proof),
+    {
+        proof {
+            let a = query_values@.len() as int; let b = query_values@[0]@.len() as int; let c = elem_bytes() as int;
+            assert(a * b <= 255 * 255) by (nonlinear_arith) requires a <= 255, b <= 255, a >= 0, b >= 0;
+            assert(a * b * c <= 255 * 255 * 64) by (nonlinear_arith) requires a * b <= 255 * 255, c <= 64, a * b >= 0, c >= 0;
+        }
+        /*@@body*/
+    }
+}
+
 proof fn oodv_canary_must_fail(b: Seq<u8>)
     requires trace_ok(b, 1)
     ensures b.len() == 1
